@@ -222,6 +222,9 @@ def attempt(sim: BuilderSim, a, kind):
         if not (isinstance(a, Actor) and isinstance(a.b, TrackedDfg)):
             return None
         bad = [i for i, w in enumerate(a.b.tracked) if w is None] + [len(a.b.tracked), len(a.b.tracked) + 2]
+        if getattr(a, "c13_untracked", None) is not None:
+            # the program's own record of the indices it was handed and the ones it gave back (never the builder's list)
+            bad = sorted(a.c13_untracked) + [a.c13_handed_out, a.c13_handed_out + 2]
         i = ch.pick(bad, "fault-int")
         m = ch.draw(4, "fault-entry")
         if m == 0:
@@ -294,14 +297,22 @@ def run(ctx):
             if isinstance(a.b, TrackedDfg) and a.b.inputs() and not a.b.tracked:
                 a.b.track_inputs()
                 a.b.untrack_wire(0)
+                a.c13_untracked, a.c13_handed_out = {0}, len(a.b.inputs())
                 if ch.coin(1, 2, "many-tracked-wires"):
                     # size class: dozens of indices handed out, most of them freed again (freed for good)
                     w0 = a.b.inputs()[0]
                     n = 17 + ch.draw(30, "n-tracked")
                     idxs = [a.b.track_wire(w0) for _ in range(n)]
+                    a.c13_handed_out += n
                     for i in idxs:
                         if ch.coin(2, 3, "untrack-it"):
-                            a.b.untrack_wire(i)
+                            try:
+                                a.b.untrack_wire(i)
+                            except IndexError:
+                                # a live index refused: not this property's business (C15 judges it); go on to the fault
+                                ctx.probe("live_index_refused_during_preparation")
+                                break
+                            a.c13_untracked.add(i)
                     ctx.probe("many_indices_most_of_them_untracked")
         att = attempt(sim, a, kind)
         if att is None and steps >= at + 4:
